@@ -6,6 +6,12 @@
 // EncryptFile rotating over RC4-40/RC4-128/AES-128/AES-256 — is read back by the independent,
 // non-repairing reader internal/pdfstrict (object streams of encrypted outputs are opened with the
 // reference security handler). Any structural defect of the kinds the property names is a violation.
+//
+// Numbering extremes: pdfgen documents renumbered sparsely (opwl PoolOptions.Sparse/SparseHuge, pdfgen/sparse.go:
+// strided numbers, objects >= 65536 and >= 2^24, generations > 0, free entries at high numbers, /Size much
+// larger than the object count) are run through a whole-document rewrite, an incremental update and further
+// seeded operations under ALL four writers (opwl.SparsePlans), because field widths, /Size and the free list
+// of the output depend on object numbers only such inputs have. repro/sparse regenerates these inputs.
 package main
 
 import (
@@ -477,7 +483,7 @@ func main() {
 
 		t.Rule("numbering extremes: pdfgen documents renumbered sparsely (strided numbers, objects >= 65536 and >= 2^24, generation numbers > 0, free entries at high numbers, /Size much larger than the object count; object and xref streams, classic tables with gaps or listed holes, incremental updates) replace the generic input of a whole-document rewrite, an incremental annotation update and seeded further operations; each such case runs under ALL four writers (xref table/stream × object streams) with the EOL rotating (thorough: × LF/CR/CRLF); documents >= 2^24: quick one document under two writers, thorough under all four")
 		ops := opwl.PDFOps()
-		pool := opwl.BuildPool(t, opwl.PoolOptions{Corpus: t.Pick(70, 1000), Gen: t.Pick(40, 300), Sparse: t.Pick(7, 49), SparseHuge: t.Pick(1, 4)})
+		pool := opwl.BuildPool(t, opwl.PoolOptions{Corpus: t.Pick(70, 1000), Gen: t.Pick(40, 300), Sparse: t.Pick(7, 49), SparseHuge: t.Pick(1, 3)})
 		n := t.Pick(3*len(ops)+len(ops)/2, 66*len(ops))
 		r := &runner{t: t, pool: pool, plans: pool.Plans(t, ops, n), nOps: len(ops), forced: map[int]writerConf{}}
 		for _, pl := range pool.SparsePlans(t, ops, t.Pick(3, 8), t.Pick(1, 2), n) {
